@@ -394,6 +394,7 @@ def spreadsheet_case(draw):
             "by_number": draw(st.booleans()), "xlsx": draw(st.integers(0, 3)) == 0}
 
 
+_EMPTY_BY_COMMA = [re.compile(p) for p in (r",\s*,", r"\(\s*,", r",\s*\)", r"^\s*,", r",\s*$")]
 _XLSX_ILLEGAL = re.compile(r"[\000-\010]|[\013-\014]|[\016-\037]")   # openpyxl refuses to write these; such sheets go as TSV
 
 
@@ -453,7 +454,9 @@ def oracle_spreadsheet(case):
                 for h, c in cells.items()}
         full_errs = {h: string_errors(c) for h, c in cells.items()}
         for h, e in full_errs.items():
-            if "TAG_EMPTY" in e:       # delimiter-level fault of the cell itself: the row is not "individually error-free"
+            # an empty element next to a comma is a delimiter-level fault of the cell itself: the row is not one of
+            # "individually error-free" cells. (An empty group '()' is found by a row-level rule instead.)
+            if "TAG_EMPTY" in e and any(p.search(cells[h]) for p in _EMPTY_BY_COMMA):
                 errs[h]["TAG_EMPTY"] = e["TAG_EMPTY"]
         if any(errs.values()):
             any_fault = True
